@@ -414,13 +414,14 @@ Definition is_gs_density (name : string) : bool :=
 Definition is_adc_amplitude (name : string) : bool :=
   String.eqb name (n_left cfg) || String.eqb name (n_right cfg).
 
-Inductive lobj := LTens (name : string) (upper lower : list index) | LDelta (i j : index).
+(* amp: the tensor is an Amplitude (its indices are listed lower before upper) *)
+Inductive lobj := LTens (amp : bool) (name : string) (upper lower : list index) | LDelta (i j : index).
 
 Definition longname (o : lobj) : res string :=
   match o with
   | LDelta i j => Ok ("d_" ++ space_str [i; j])
-  | LTens name up lo =>
-      let sp := map ispace (up ++ lo)%list in
+  | LTens amp name up lo =>
+      let sp := map ispace (if amp then lo ++ up else up ++ lo)%list in
       if is_t_amplitude name then
         if negb (Nat.eqb (List.length up) (List.length lo)) then Crash
         else
@@ -526,12 +527,23 @@ Definition bind_ok (cfg : tnames) (be : backend) (steps : list cstep) : bool :=
      implb (String.eqb (printed_name cfg be o1) (printed_name cfg be o2))
            (String.eqb (fst o1) (fst o2) && same_sorts (snd o1) (snd o2))) b) b.
 
+(* naming convention of the target tool chain: only the ERI, the Fock matrix
+   and the t2eri intermediates are renamed (hf.<block>, hf.f<block>, i_<block>,
+   pi<n>); any other tensor keeps its long name *)
+Definition conv_ok (cfg : tnames) (be : backend) (steps : list cstep) : bool :=
+  forallb (fun op : string * list index =>
+     String.eqb (printed_name cfg be op) (fst op) ||
+     String.eqb (fst op) (n_eri cfg ++ "_" ++ space_str (snd op)) ||
+     String.eqb (fst op) (n_fock cfg ++ "_" ++ space_str (snd op)) ||
+     prefix "t2eri_" (fst op)) (base_ops steps).
+
 Record checks := Checks { c_names : bool; c_letters : bool; c_steps : bool; c_bind : bool;
-                          c_noleak : bool; c_target : bool }.
+                          c_conv : bool; c_noleak : bool; c_target : bool }.
 Definition scheme_checks (cfg : tnames) (be : backend) (requested : list index) (steps : list cstep) : checks :=
   let D := (scheme_idx steps ++ requested)%list in
   Checks (names_inj D) (single_letter D) (forallb step_wf steps && link_ok [] steps)
-         (bind_ok cfg be steps) (no_leak requested steps) (last_tgt_ok requested steps).
+         (bind_ok cfg be steps) (conv_ok cfg be steps) (no_leak requested steps)
+         (last_tgt_ok requested steps).
 
 (* ------------------------------------------------------------------ *)
 (** * The interpreter *)
